@@ -14,7 +14,8 @@ class LazilyIndexedWrapper(BackendArray):
         self.array = array
         self.lock = lock
         self.shape = array.shape
-        self.dtype = array.dtype
+        # the image array records its dtype by name; xarray needs a real dtype (sizes, repr)
+        self.dtype = np.dtype(array.dtype)
 
     def __getitem__(self, key: indexing.ExplicitIndexer) -> np.typing.ArrayLike:
         return indexing.explicit_indexing_adapter(
